@@ -721,6 +721,74 @@ Definition run_c20_raw (args : list sx) : sx :=
   | [I e] => ret (I (alg_of_enum e))
   | _ => None end).
 
+(* ---------- two instances from the same constructor, their histories interleaved ---------- *)
+(* Every place that hands out instances (GetCompressor / GetDecompressor, the New* constructors the reference
+   peers register with the RPC library, tracer.GetDecompressor) gives each caller an instance of its OWN: the
+   state of two users is a PAIR of states and an operation of one user is a step on its component.  Generic
+   in the step function; instances_independent (C20_Pair.v) says what that buys. *)
+Section Pair.
+  Variables (pst pop pout : Type) (pstep : pst -> pop -> pst * list pout).
+  Fixpoint inst_run1 (s : pst) (ops : list pop) : list pout :=
+    match ops with
+    | [] => []
+    | o :: r => let '(s', x) := pstep s o in x ++ inst_run1 s' r
+    end.
+  (* false = an operation of user A, true = of user B *)
+  Fixpoint inst_run2 (sa sb : pst) (h : list (bool * pop)) : list (bool * pout) :=
+    match h with
+    | [] => []
+    | (false, o) :: r => let '(sa', x) := pstep sa o in map (pair false) x ++ inst_run2 sa' sb r
+    | (true, o) :: r => let '(sb', x) := pstep sb o in map (pair true) x ++ inst_run2 sa sb' r
+    end.
+End Pair.
+Definition of_inst {X : Type} (b : bool) (l : list (bool * X)) : list X :=
+  map snd (filter (fun p => Bool.eqb (fst p) b) l).
+
+(* the scripted history machine as a total step function: None = the history is over (an operation panicked),
+   HBad = not a case *)
+Inductive hout := HBad | HOut (o : sx).
+Definition h_step1 (k : wkind) (s : option hstate) (op : hop) : option hstate * list hout :=
+  match s with
+  | None => (None, [])
+  | Some st =>
+    match h_step k st op with
+    | None => (None, [HBad])
+    | Some (st', out, crashed) => (if crashed then None else Some st', [HOut out])
+    end
+  end.
+Fixpoint houts (l : list hout) : option (list sx) :=
+  match l with
+  | [] => Some []
+  | HBad :: _ => None
+  | HOut o :: r => do t <- houts r; ret (o :: t)
+  end.
+Fixpoint merge_sched (sched : list Z) (a b : list hop) : option (list (bool * hop)) :=
+  match sched with
+  | [] => match a, b with [], [] => Some [] | _, _ => None end
+  | t :: r =>
+    if (t =? 0)%Z then match a with x :: a' => do m <- merge_sched r a' b; ret ((false, x) :: m) | [] => None end
+    else if (t =? 1)%Z then match b with x :: b' => do m <- merge_sched r a b'; ret ((true, x) :: m) | [] => None end
+    else None
+  end.
+
+(* enc ctor (opsA) (opsB) (schedule): ctor as for c20.hist (0, 1) / c20.trhist (2, 3) *)
+Definition run_pair (tracer : bool) (args : list sx) : sx :=
+  or_bad (match args with
+  | [I enc; I ctor; a; b; sched] =>
+    do a <- un_listof un_hop a; do b <- un_listof un_hop b; do sched <- un_listof un_I sched;
+    if ((enc <? 1) || (6 <? enc))%Z then None
+    else if tracer && negb (Z.eqb ctor 2 || Z.eqb ctor 3) then None
+    else if negb tracer && (negb (Z.eqb ctor 0) && ((enc <? 3) || negb (Z.eqb ctor 1))%Z) then None
+    else
+      do k <- get_kind enc;
+      do h <- merge_sched sched a b;
+      let r := inst_run2 _ _ _ (h_step1 k) (Some (h_init k)) (Some (h_init k)) h in
+      do ra <- houts (of_inst false r); do rb <- houts (of_inst true r);
+      ret (L [L ra; L rb])
+  | _ => None end).
+Definition run_c20_pair := run_pair false.
+Definition run_c20_trpair := run_pair true.
+
 Definition c20_table : list (bytes * (list sx -> sx)) :=
   [ (bs "c20.hist", run_c20_hist);
     (bs "c20.enum", run_c20_enum);
@@ -731,6 +799,8 @@ Definition c20_table : list (bytes * (list sx -> sx)) :=
     (bs "c20.client", run_c20_client);
     (bs "c20.raw", run_c20_raw);
     (bs "c20.trhist", run_c20_trhist);
+    (bs "c20.pair", run_c20_pair);
+    (bs "c20.trpair", run_c20_trpair);
     (bs "c20.rawrt", run_c20_rawrt);
     (bs "c20.live", run_c20_live);
     (bs "c20.clive", run_c20_live);
